@@ -41,4 +41,6 @@ def run(check):
     # descriptor *class* nested in another class as if it were a descriptor instance (TypeError out of the hook)
     from ..rules_wrappers import rule_descriptor_rebinding
     check.run_rule('C07.R5c', lambda c: rule_descriptor_rebinding(c, 'C07.R5', only_safe_get=True))
+    from ..rules_visitor import rule_builtins_access
+    check.run_rule('C07.R7b', lambda c: rule_builtins_access(c, 'C07.R7'))
     check.run_rule('C07.R5b', lambda c: rule_sphinx_unchanged_pair(c, 'C07.R5'))
